@@ -9,6 +9,15 @@ and after every mutation) and every observation is compared with the Lean driver
 search(): the clauses of the property evaluated directly on the real code with fractions.Fraction
 (no Lean involved): getters vs vectors, rebuild through a second parameter set, rel∘cart, duality,
 inside vs exact relative coordinates, outside = not inside, list vs array, cache after mutation.
+
+Hardening round: (1) small-change op class — every lazily computed quantity warm, then a change of one ulp ..
+1e-4 relative (or none) through every setter, then all reads again (gen_perturb / resolve_perturb; cells in
+several units); (2) history independence, bitwise — the object must be indistinguishable from a fresh
+Box(vects=box.vects, origin=box.origin) (no tolerance, so staleness of any size shows), and the hidden
+_Box__reciprocal_vects, if set, must be inv(vects).T (CBox.Coherent of Proofs/C01_Object.lean on the real object);
+(3) aliasing — arrays given to setters / handed out by getters are overwritten afterwards; (4) exact construction
+clause; (5) more containers (empty, (3,3), strided, Fortran) and near-face distances log-uniform 1e-13..1e-3.
+The driver's state is the model *object* CBox (cell + cached reciprocal vectors).
 """
 from __future__ import annotations
 
@@ -32,6 +41,10 @@ THEOREMS = [
     'C01.fresh_coherent', 'C01.obj_set_coherent', 'C01.obj_read_coherent', 'C01.obj_step_coherent', 'C01.obj_after_coherent',
     'C01.obj_recip_eq', 'C01.obj_step_refines', 'C01.obj_run_refines', 'C01.obj_run_refines_fresh',
     'C01.obj_recip_dual', 'C01.obj_c2r_r2c',
+    # definitions regenerated from Box.py on every run = the hand-written model (Proofs/C01_Source.lean)
+    'C01.src_state_protocol', 'C01.src_r2c', 'C01.src_c2r', 'C01.src_cacheFill', 'C01.src_obj_c2r', 'C01.src_planes',
+    'C01.src_volume', 'C01.src_isLammpsNorm', 'C01.src_lammps_getters', 'C01.src_abc_sq', 'C01.src_set_lengths',
+    'C01.src_set_hi_los', 'C01.src_set_abc', 'C01.src_angles',
 ]
 PARTIAL = {
     'angles_in_degrees': 'read-back of lengths and angles is proved in squared / cosine form over every ordered field '
@@ -44,7 +57,10 @@ PARTIAL = {
 RULE = ('scenarios = op sequences on one Box object: construct via vects | avect,bvect,cvect | lx.. | xlo.. | a,b,c,angles '
         '| family classmethods, each through Box(**kw), set(**kw), set_*() or the attribute setters; then get / lammps / recip '
         '/ r2c / c2r / inside / outside reads with random input container (list, tuple, 1..4-d array), then 1-3 mutations '
-        'each followed by the reads again. Regimes: dyadic grid (multiples of 1/8, exact comparison of vects, origin, '
+        'each followed by the reads again; small-change chains: warm caches, then 2-4 changes of one ulp .. 1e-4 relative '
+        '(scale | entry | shear | strain | ulp | none) through every setter incl. origin, cells scaled by 2^-30..2^30, reads '
+        'after each; search additionally: bitwise comparison with a fresh Box(vects, origin), hidden-cache coherence, '
+        'overwriting arrays given to / returned by the Box. Regimes: dyadic grid (multiples of 1/8, exact comparison of vects, origin, '
         'lammps getters, volume, r2c; exact inside/outside incl. points on faces/edges/corners for orthogonal cells), '
         'generic doubles (tolerance 1e3*2^-52*cond*scale; points whose model margin to a face is below that bound exempt), '
         'clean-up threshold cases, error cases (non-positive lengths, angles outside (0,180), unrealisable angle triples, '
@@ -64,6 +80,518 @@ TRUSTED = ['numpy broadcasting / shape plumbing (exercised through container and
 
 U = 2.0 ** -52
 SAFETY = 1e3
+GENERATED = ['BoxSource']
+
+
+# ----------------------------------------------------------------------------------------
+# translator: atomman/core/Box.py (class Box) -> lean/Atomman/Generated/BoxSource.lean
+#   * the hidden state of the class and who writes it (the protocol CBox models)
+#   * the one-line formulas (conversions, cache fill, planes, volume, LAMMPS getters, is_lammps_norm,
+#     set_lengths matrix and guard, set_hi_los, the straight-line body and guard of set_abc)
+# Proofs/C01_Source.lean shows each generated definition equal to the hand-written model's.
+# ----------------------------------------------------------------------------------------
+def translate():
+    import ast
+    from ..translate import TranslationError
+
+    src = cm.source('atomman/core/Box.py')
+    tree = ast.parse(src)
+    cls = [n for n in tree.body if isinstance(n, ast.ClassDef) and n.name == 'Box']
+    if len(cls) != 1:
+        raise TranslationError('class Box not found')
+    cls = cls[0]
+
+    def fail(msg):
+        raise TranslationError('Box.py: ' + msg)
+
+    # ---- methods by name ("x.setter" for property setters) ---------------------------------
+    meths = {}
+    for n in cls.body:
+        if isinstance(n, ast.FunctionDef):
+            name = n.name
+            for d in n.decorator_list:
+                if isinstance(d, ast.Attribute) and d.attr == 'setter':
+                    name = n.name + '.setter'
+            if name in meths:
+                fail(f'method {name} defined twice')
+            meths[name] = n
+
+    def body(name):
+        if name not in meths:
+            fail(f'method {name} missing')
+        b = meths[name].body
+        if b and isinstance(b[0], ast.Expr) and isinstance(b[0].value, ast.Constant) and isinstance(b[0].value.value, str):
+            b = b[1:]
+        return b
+
+    def is_hidden(node):
+        return isinstance(node, ast.Attribute) and isinstance(node.value, ast.Name) and node.value.id == 'self' \
+            and node.attr.startswith('__') and not node.attr.endswith('__')
+
+    # ---- hidden state and direct writes ------------------------------------------------------
+    hidden = set()
+    writes = {}
+    for name, f in meths.items():
+        w = set()
+        for node in ast.walk(f):
+            if is_hidden(node):
+                hidden.add(node.attr[2:])
+            targets = []
+            if isinstance(node, ast.Assign):
+                targets = node.targets
+            elif isinstance(node, (ast.AugAssign, ast.AnnAssign)):
+                targets = [node.target]
+            elif isinstance(node, ast.Delete):
+                targets = node.targets
+            for t in targets:
+                for e in (t.elts if isinstance(t, (ast.Tuple, ast.List)) else [t]):
+                    base = e
+                    while isinstance(base, ast.Subscript):
+                        base = base.value
+                    if is_hidden(base):
+                        w.add(base.attr[2:])
+            # a hidden array handed to a call (np.copyto(self.__vects, …), out=self.__vects) or having a method called
+            # on it could be written without an assignment: outside the translated subset
+            if isinstance(node, ast.Call):
+                pure = ast.unparse(node.func) in ('deepcopy', 'abs', 'np.abs', 'np.isclose', 'np.allclose', 'np.array', 'np.copy',
+                                                  'np.array_equal', 'vect_angle', 'np.linalg.inv', 'np.linalg.det', 'np.linalg.norm',
+                                                  'len', 'str', 'repr')
+                for a in list(node.args) + [k.value for k in node.keywords]:
+                    if is_hidden(a) and not pure:
+                        fail(f'{name}: hidden attribute passed to a call: {ast.unparse(node)[:80]}')
+                if isinstance(node.func, ast.Attribute) and is_hidden(node.func.value) and \
+                        node.func.attr in ('fill', 'put', 'itemset', 'sort', 'resize', 'partition', 'setfield', '__setitem__'):
+                    fail(f'{name}: in-place method on a hidden attribute: {ast.unparse(node)[:80]}')
+            if isinstance(node, ast.Call) and isinstance(node.func, ast.Name) and node.func.id in ('setattr', 'delattr'):
+                fail(f'{name}: setattr/delattr')
+        if w:
+            writes[name] = sorted(w)
+
+    def full_slice_store(stmt, attr):
+        """`self.__attr[:] = <expr>`"""
+        return (isinstance(stmt, ast.Assign) and len(stmt.targets) == 1 and isinstance(stmt.targets[0], ast.Subscript)
+                and is_hidden(stmt.targets[0].value) and stmt.targets[0].value.attr == '__' + attr
+                and isinstance(stmt.targets[0].slice, ast.Slice) and stmt.targets[0].slice.lower is None
+                and stmt.targets[0].slice.upper is None and stmt.targets[0].slice.step is None)
+
+    def has_return(stmts):
+        return any(isinstance(n, ast.Return) for st in stmts for n in ast.walk(st))
+
+    # vects setter: copy in, (clean-up), unconditional cache drop last, no early return
+    vb = body('vects.setter')
+    vects_copies = bool(vb) and full_slice_store(vb[0], 'vects') and isinstance(vb[0].value, ast.Name)
+    drop_idx = [i for i, st in enumerate(vb) if isinstance(st, ast.Assign) and len(st.targets) == 1
+                and is_hidden(st.targets[0]) and st.targets[0].attr == '__reciprocal_vects'
+                and isinstance(st.value, ast.Constant) and st.value.value is None]
+    last_write = max([i for i, st in enumerate(vb) if any(
+        (isinstance(n, ast.Subscript) or isinstance(n, ast.Attribute)) and isinstance(getattr(n, 'ctx', None), ast.Store)
+        and '__vects' in ast.unparse(n) for n in ast.walk(st))] + [-1])
+    vects_drops = bool(drop_idx) and drop_idx[-1] > last_write and not has_return(vb) \
+        and all(not isinstance(st, (ast.If, ast.Try, ast.For, ast.While, ast.With)) for st in vb)
+    # the clean-up statement (threshold literal is tied in correspond())
+    ob = body('origin.setter')
+    origin_copies = len(ob) == 1 and full_slice_store(ob[0], 'origin') and isinstance(ob[0].value, ast.Name)
+
+    def returns_copy(name, attr):
+        b = body(name)
+        r = b[-1] if b else None
+        if not isinstance(r, ast.Return) or r.value is None:
+            return False
+        v = r.value
+        inner = None
+        if isinstance(v, ast.Call) and isinstance(v.func, ast.Name) and v.func.id == 'deepcopy' and len(v.args) == 1:
+            inner = v.args[0]
+        elif isinstance(v, ast.Call) and isinstance(v.func, ast.Attribute) and v.func.attr == 'copy' and not v.args:
+            inner = v.func.value
+        elif isinstance(v, ast.Call) and ast.unparse(v.func) in ('np.array', 'np.copy') and len(v.args) == 1:
+            inner = v.args[0]
+        return inner is not None and is_hidden(inner) and inner.attr == '__' + attr
+
+    vects_getter_copies = len(body('vects')) == 1 and returns_copy('vects', 'vects')
+    origin_getter_copies = len(body('origin')) == 1 and returns_copy('origin', 'origin')
+    rb = body('reciprocal_vects')
+    recip_getter_copies = returns_copy('reciprocal_vects', 'reciprocal_vects')
+    if not (len(rb) == 2 and isinstance(rb[0], ast.If) and ast.unparse(rb[0].test) == 'self.__reciprocal_vects is None'
+            and len(rb[0].body) == 1 and not rb[0].orelse and isinstance(rb[0].body[0], ast.Assign)
+            and ast.unparse(rb[0].body[0].targets[0]) == 'self.__reciprocal_vects' and isinstance(rb[1], ast.Return)):
+        fail('reciprocal_vects getter is not "if cache is None: cache = <fill>; return <cache>"')
+    fill_expr = rb[0].body[0].value
+
+    # ---- expression translation ------------------------------------------------------------
+    COMP = ['x', 'y', 'z']
+
+    def index_const(sl):
+        if isinstance(sl, ast.Constant) and isinstance(sl.value, int) and 0 <= sl.value <= 2:
+            return sl.value
+        fail(f'index {ast.unparse(sl)}')
+
+    class Tr:
+        def __init__(self, env, cosnames=None, roots=None):
+            self.env = dict(env)           # python name -> (lean, type)
+            self.cosnames = cosnames or {}
+            self.roots = roots             # list collecting (name, radicand lean) for `(E)**0.5` assignments
+
+        def tr(self, n):
+            if isinstance(n, ast.Constant) and isinstance(n.value, (int, float)) and not isinstance(n.value, bool):
+                if n.value == 0:
+                    return '0', 'K'
+                if n.value == 180:
+                    return '180', 'K'
+                fail(f'literal {n.value!r}')
+            if isinstance(n, ast.Name):
+                if n.id not in self.env:
+                    fail(f'unknown name {n.id}')
+                return self.env[n.id]
+            if isinstance(n, ast.Attribute) and isinstance(n.value, ast.Name) and n.value.id == 'self':
+                m = {'vects': ('vects', 'M'), '__vects': ('vects', 'M'), 'origin': ('origin', 'V'), '__origin': ('origin', 'V'),
+                     'avect': ('vects.r0', 'V'), 'bvect': ('vects.r1', 'V'), 'cvect': ('vects.r2', 'V'),
+                     'reciprocal_vects': ('reciprocal_vects', 'M')}
+                if n.attr in m:
+                    return m[n.attr]
+                fail(f'self.{n.attr} in an expression')
+            if isinstance(n, ast.Subscript):
+                a, t = self.tr(n.value)
+                if t == 'M' and isinstance(n.slice, ast.Tuple) and len(n.slice.elts) == 2:
+                    i, j = index_const(n.slice.elts[0]), index_const(n.slice.elts[1])
+                    return f'{a}.r{i}.{COMP[j]}', 'K'
+                if t == 'M':
+                    return f'{a}.r{index_const(n.slice)}', 'V'
+                if t == 'V':
+                    return f'{a}.{COMP[index_const(n.slice)]}', 'K'
+                fail(f'subscript of a scalar: {ast.unparse(n)}')
+            if isinstance(n, ast.UnaryOp) and isinstance(n.op, ast.USub):
+                a, t = self.tr(n.operand)
+                return f'(-{a})', t
+            if isinstance(n, ast.BinOp):
+                if isinstance(n.op, ast.Pow):
+                    if isinstance(n.right, ast.Constant) and n.right.value == 2:
+                        a, t = self.tr(n.left)
+                        if t != 'K':
+                            fail(f'square of a non-scalar: {ast.unparse(n)}')
+                        return f'({a} * {a})', 'K'
+                    fail(f'power {ast.unparse(n)}')
+                a, ta = self.tr(n.left)
+                b, tb = self.tr(n.right)
+                if isinstance(n.op, (ast.Add, ast.Sub)):
+                    if ta != tb:
+                        fail(f'{ta} ± {tb}: {ast.unparse(n)}')
+                    return f'({a} {"+" if isinstance(n.op, ast.Add) else "-"} {b})', ta
+                if isinstance(n.op, ast.Mult) and ta == tb == 'K':
+                    return f'({a} * {b})', 'K'
+                if isinstance(n.op, ast.Div) and ta == tb == 'K':
+                    return f'({a} / {b})', 'K'
+                fail(f'operator in {ast.unparse(n)}')
+            if isinstance(n, ast.Call):
+                fn = ast.unparse(n.func)
+                if n.keywords:
+                    fail(f'keywords in {ast.unparse(n)}')
+                if fn == 'np.cos' and len(n.args) == 1:
+                    key = ast.unparse(n.args[0])
+                    if key in self.cosnames:
+                        return self.cosnames[key], 'K'
+                    fail(f'cosine of {key}')
+                args = [self.tr(a) for a in n.args]
+                if fn == 'np.cross' and [t for _, t in args] == ['V', 'V']:
+                    return f'(V3.cross {args[0][0]} {args[1][0]})', 'V'
+                if fn == 'np.dot' and [t for _, t in args] == ['V', 'V']:
+                    return f'(V3.dot {args[0][0]} {args[1][0]})', 'K'
+                if fn == 'np.abs' and [t for _, t in args] == ['K']:
+                    return f'(absK {args[0][0]})', 'K'
+                if fn == 'np.inner' and [t for _, t in args] == ['V', 'M']:
+                    return f'(M3.mulVec {args[1][0]} {args[0][0]})', 'V'
+                if isinstance(n.func, ast.Attribute) and n.func.attr == 'dot' and len(args) == 1:
+                    a, ta = self.tr(n.func.value)
+                    if ta == 'V' and args[0][1] == 'M':
+                        return f'(M3.vecMul {a} {args[0][0]})', 'V'
+                fail(f'call {ast.unparse(n)}')
+            if isinstance(n, ast.Attribute) and n.attr == 'T':
+                v = n.value
+                if isinstance(v, ast.Call) and ast.unparse(v.func) == 'np.linalg.inv' and len(v.args) == 1:
+                    a, t = self.tr(v.args[0])
+                    if t == 'M':
+                        return f'(M3.inv {a}).transpose', 'M'
+                fail(f'transpose of {ast.unparse(v)}')
+            fail(f'expression {ast.unparse(n)}')
+
+    def ret_expr(name, nstmts=1, skip_assert=False, pre=None):
+        b = body(name)
+        if skip_assert:
+            if not (b and isinstance(b[0], ast.Assert) and ast.unparse(b[0].test) == 'self.is_lammps_norm()'):
+                fail(f'{name}: no `assert self.is_lammps_norm()` guard')
+            b = b[1:]
+        if pre is not None:
+            b = pre(b)
+        if len(b) != nstmts or not isinstance(b[-1], ast.Return):
+            fail(f'{name}: body is not {nstmts} statement(s) ending in return')
+        return b[-1].value
+
+    out = []
+    A = out.append
+    A('/- GENERATED by harness/props/c01.py (translate) from atomman/core/Box.py, class Box — do not edit.')
+    A('   Hidden state / write protocol of the class and its one-line formulas; `Proofs/C01_Source.lean` shows each')
+    A('   definition equal to the hand-written model of `Atomman/Box.lean` + `Atomman/C01.lean`. -/')
+    A('import Atomman.C01')
+    A('')
+    A('namespace Atomman.Generated.BoxSource')
+    A('open Atomman Atomman.C01')
+    A('')
+
+    def lstr(xs):
+        return '[' + ', '.join('"' + x + '"' for x in xs) + ']'
+
+    A('/-- the private attributes `self.__x` of the class. -/')
+    A(f'def hiddenState : List String := {lstr(sorted(hidden))}')
+    A('/-- which method stores to which private attribute (assignment, slice assignment, augmented assignment, del). -/')
+    A('def directWrites : List (String × List String) := ['
+      + ', '.join(f'("{k}", {lstr(v)})' for k, v in sorted(writes.items())) + ']')
+    for nm, val, doc in (
+            ('vectsSetterCopies', vects_copies, '`vects` setter starts with `self.__vects[:] = value` (the numbers are copied in)'),
+            ('vectsSetterDropsCache', vects_drops, '`vects` setter: straight-line, no early return, `self.__reciprocal_vects = None` after the last write to `__vects`'),
+            ('originSetterCopies', origin_copies, '`origin` setter is exactly `self.__origin[:] = value`'),
+            ('vectsGetterCopies', vects_getter_copies, '`vects` returns a copy'),
+            ('originGetterCopies', origin_getter_copies, '`origin` returns a copy'),
+            ('recipGetterCopies', recip_getter_copies, '`reciprocal_vects` returns a copy of the cached array')):
+        A(f'/-- {doc}. -/')
+        A(f'def {nm} : Bool := {"true" if val else "false"}')
+
+    # which property setters the cell-defining methods go through (one level of self.set_lengths(...) resolved)
+    def assigns(name, seen=()):
+        v = o = False
+        for st in body(name):
+            for n in ast.walk(st):
+                if isinstance(n, ast.Assign) and len(n.targets) == 1 and isinstance(n.targets[0], ast.Attribute) \
+                        and isinstance(n.targets[0].value, ast.Name) and n.targets[0].value.id == 'self':
+                    v |= n.targets[0].attr == 'vects'
+                    o |= n.targets[0].attr == 'origin'
+                if isinstance(n, ast.Call) and isinstance(n.func, ast.Attribute) and isinstance(n.func.value, ast.Name) \
+                        and n.func.value.id == 'self' and n.func.attr in ('set_lengths', 'set_vectors', 'set_hi_los', 'set_abc') \
+                        and n.func.attr not in seen:
+                    v2, o2 = assigns(n.func.attr, seen + (name,))
+                    v |= v2
+                    o |= o2
+        return v, o
+
+    A('/-- (method, assigns `self.vects = …`, assigns `self.origin = …`), calls of the other `set_*` resolved. -/')
+    A('def setterAssigns : List (String × Bool × Bool) := ['
+      + ', '.join(f'("{m}", {str(assigns(m)[0]).lower()}, {str(assigns(m)[1]).lower()})'
+                  for m in ('set_vectors', 'set_lengths', 'set_hi_los', 'set_abc')) + ']')
+    A('')
+    A('variable {K : Type}')
+    A('')
+    A('section formulas')
+    A('variable [Zero K] [OfNat K 180] [Neg K] [Add K] [Sub K] [Mul K] [Div K] [LT K] [LE K] [DecidableLT K] [DecidableLE K]')
+    A('  [DecidableEq K]')
+    A('')
+    base = {}
+    t = Tr(dict(base, relpos=('relpos', 'V')))
+    e, ty = t.tr(ret_expr('position_relative_to_cartesian', pre=lambda b: _strip_check(b, 'relpos', fail)))
+    if ty != 'V':
+        fail('position_relative_to_cartesian does not return a vector')
+    A('/-- `position_relative_to_cartesian` (one point). -/')
+    A(f'def r2c (vects : M3 K) (origin : V3 K) (relpos : V3 K) : V3 K := {e}')
+    t = Tr(dict(base, value=('value', 'V')))
+    e, ty = t.tr(ret_expr('position_cartesian_to_relative', pre=lambda b: _strip_check(b, 'cartpos', fail)))
+    if ty != 'V':
+        fail('position_cartesian_to_relative does not return a vector')
+    A('/-- `position_cartesian_to_relative` (one point), given what `self.reciprocal_vects` returns. -/')
+    A(f'def c2r (origin : V3 K) (reciprocal_vects : M3 K) (value : V3 K) : V3 K := {e}')
+    e, ty = Tr(base).tr(fill_expr)
+    if ty != 'M':
+        fail('cache fill is not a matrix')
+    A('/-- what the `reciprocal_vects` getter computes and caches. -/')
+    A(f'def cacheFill (vects : M3 K) : M3 K := {e}')
+    # planes
+    pv = ret_expr('planes')
+    if not (isinstance(pv, ast.Tuple) and len(pv.elts) == 6):
+        fail('planes does not return a 6-tuple')
+    pls = []
+    for el in pv.elts:
+        if not (isinstance(el, ast.Call) and ast.unparse(el.func) == 'Plane' and len(el.args) == 2 and not el.keywords):
+            fail(f'planes element {ast.unparse(el)}')
+        nrm, t1 = Tr(base).tr(el.args[0])
+        pt, t2 = Tr(base).tr(el.args[1])
+        if (t1, t2) != ('V', 'V'):
+            fail('plane arguments are not vectors')
+        pls.append(f'⟨{nrm}, {pt}⟩')
+    A('/-- `Box.planes`: (normal before normalisation, point). -/')
+    A('def planes (vects : M3 K) (origin : V3 K) : List (RawPlane K) :=\n  [' + ',\n   '.join(pls) + ']')
+    e, ty = Tr(base).tr(ret_expr('volume'))
+    A('/-- `volume`. -/')
+    A(f'def volume (vects : M3 K) : K := {e}')
+    for nm in ('lx', 'ly', 'lz', 'xy', 'xz', 'yz', 'xlo', 'xhi', 'ylo', 'yhi', 'zlo', 'zhi'):
+        e, ty = Tr(base).tr(ret_expr(nm, skip_assert=True))
+        if ty != 'K':
+            fail(f'{nm} is not a scalar')
+        A(f'/-- `{nm}` (after `assert self.is_lammps_norm()`). -/')
+        A(f'def {nm} (vects : M3 K) (origin : V3 K) : K := {e}')
+    for nm in 'abc':
+        v = ret_expr(nm)
+        if not (isinstance(v, ast.BinOp) and isinstance(v.op, ast.Pow) and isinstance(v.right, ast.Constant) and v.right.value == 0.5):
+            fail(f'{nm} is not (…)**0.5')
+        e, ty = Tr(base).tr(v.left)
+        A(f'/-- the value under the square root of `{nm}`. -/')
+        A(f'def {nm}Sq (vects : M3 K) : K := {e}')
+    for nm, (i, j) in (('alpha', (1, 2)), ('beta', (0, 2)), ('gamma', (0, 1))):
+        v = ret_expr(nm)
+        if ast.unparse(v) != f'vect_angle(self.__vects[{i}], self.__vects[{j}])':
+            fail(f'{nm} is not vect_angle(self.__vects[{i}], self.__vects[{j}])')
+    # is_lammps_norm: conjunction of comparisons
+    v = ret_expr('is_lammps_norm')
+    if not (isinstance(v, ast.BoolOp) and isinstance(v.op, ast.And)):
+        fail('is_lammps_norm is not a conjunction')
+    conj = []
+    for cnd in v.values:
+        conj.append(_cmp(cnd, Tr(base), fail))
+    A('/-- `is_lammps_norm`. -/')
+    A('def isLammpsNorm (vects : M3 K) : Bool :=\n  ' + ' && '.join(conj))
+    # set_lengths
+    sb = body('set_lengths')
+    if not (len(sb) == 4 and isinstance(sb[0], ast.Assert) and ast.unparse(sb[1]).startswith('if origin is None:')
+            and ast.unparse(sb[1].body[0]) == 'origin = [0.0, 0.0, 0.0]' and len(sb[1].body) == 1 and not sb[1].orelse
+            and ast.unparse(sb[2].targets[0]) == 'self.vects' and ast.unparse(sb[3]) == 'self.origin = origin'):
+        fail('set_lengths is not assert / default origin / self.vects = matrix / self.origin = origin')
+    env6 = {k: (k, 'K') for k in ('lx', 'ly', 'lz', 'xy', 'xz', 'yz')}
+    if not (isinstance(sb[0].test, ast.BoolOp) and isinstance(sb[0].test.op, ast.And)):
+        fail('set_lengths assert is not a conjunction')
+    A('/-- the assert of `set_lengths`. -/')
+    A('def lengthsOk (lx ly lz : K) : Bool :=\n  ' + ' && '.join(_cmp(c, Tr(env6), fail) for c in sb[0].test.values))
+    mat = sb[2].value
+    if not (isinstance(mat, ast.List) and len(mat.elts) == 3 and all(isinstance(r, ast.List) and len(r.elts) == 3 for r in mat.elts)):
+        fail('set_lengths does not assign a 3x3 list literal')
+    rows = []
+    for r in mat.elts:
+        ents = []
+        for x in r.elts:
+            e, ty = Tr(env6).tr(x)
+            if ty != 'K':
+                fail('matrix entry is not a scalar')
+            ents.append(e)
+        rows.append('⟨' + ', '.join(ents) + '⟩')
+    A('/-- the matrix `set_lengths` hands to the `vects` setter. -/')
+    A('def lengthsVects (lx ly lz xy xz yz : K) : M3 K := ⟨' + ', '.join(rows) + '⟩')
+    # set_vectors
+    vb2 = body('set_vectors')
+    if not (len(vb2) == 3 and ast.unparse(vb2[0]).startswith('if origin is None:') and ast.unparse(vb2[0].body[0]) == 'origin = [0.0, 0.0, 0.0]'
+            and len(vb2[0].body) == 1 and not vb2[0].orelse
+            and ast.unparse(vb2[1]) == 'self.vects = [avect, bvect, cvect]' and ast.unparse(vb2[2]) == 'self.origin = origin'):
+        fail('set_vectors is not default origin / self.vects = [avect, bvect, cvect] / self.origin = origin')
+    # set_hi_los
+    hb = body('set_hi_los')
+    envh = {k: (k, 'K') for k in ('xlo', 'xhi', 'ylo', 'yhi', 'zlo', 'zhi', 'xy', 'xz', 'yz')}
+    th = Tr(envh)
+    lets = []
+    org = None
+    call = None
+    for st in hb:
+        if isinstance(st, ast.Assign) and len(st.targets) == 1 and isinstance(st.targets[0], ast.Name):
+            nm = st.targets[0].id
+            if nm == 'origin':
+                if not (isinstance(st.value, ast.List) and len(st.value.elts) == 3):
+                    fail('set_hi_los origin is not a 3-list')
+                org = [th.tr(x)[0] for x in st.value.elts]
+            else:
+                e, ty = th.tr(st.value)
+                lets.append(f'let {nm} := {e}')
+                th.env[nm] = (nm, ty)
+        elif isinstance(st, ast.Expr) and isinstance(st.value, ast.Call) and ast.unparse(st.value.func) == 'self.set_lengths':
+            call = st.value
+        else:
+            fail(f'set_hi_los statement {ast.unparse(st)[:60]}')
+    if call is None or org is None or call is not hb[-1].value:
+        fail('set_hi_los does not end in self.set_lengths(…)')
+    kws = {k.arg: ast.unparse(k.value) for k in call.keywords}
+    if call.args or kws != {k: k for k in ('lx', 'ly', 'lz', 'xy', 'xz', 'yz', 'origin')}:
+        fail(f'set_hi_los passes {kws} to set_lengths')
+    A('/-- what `set_hi_los` passes to `set_lengths`. -/')
+    A('def hilosLengths (xlo xhi ylo yhi zlo zhi xy xz yz : K) : Lengths K :=\n  ' + '\n  '.join(lets)
+      + '\n  { lx := lx, ly := ly, lz := lz, xy := xy, xz := xz, yz := yz }')
+    A('def hilosOrigin (xlo ylo zlo : K) : V3 K := ⟨' + ', '.join(org) + '⟩')
+    # set_abc
+    ab = body('set_abc')
+    if not (isinstance(ab[0], ast.If) and len(ab[0].body) == 1 and isinstance(ab[0].body[0], ast.Raise) and not ab[0].orelse
+            and 'ValueError' in ast.unparse(ab[0].body[0]) and isinstance(ab[0].test, ast.BoolOp) and isinstance(ab[0].test.op, ast.Or)):
+        fail('set_abc does not start with the angle guard `if … or …: raise ValueError`')
+    enva = {k: (k, 'K') for k in ('a', 'b', 'c', 'alpha', 'beta', 'gamma')}
+    A('/-- the guard of `set_abc` (`true` = ValueError). -/')
+    A('def anglesRejected (alpha beta gamma : K) : Bool :=\n  ' + ' || '.join(_cmp(c, Tr(enva), fail) for c in ab[0].test.values))
+    cosn = {f'{ang} * np.pi / 180': nm for ang, nm in (('alpha', 'ca'), ('beta', 'cb'), ('gamma', 'cg'))}
+    ta = Tr({k: (k, 'K') for k in ('a', 'b', 'c')}, cosnames=cosn)
+    lets = []
+    radic = {}
+    call = None
+    for st in ab[1:]:
+        if isinstance(st, ast.Assign) and len(st.targets) == 1 and isinstance(st.targets[0], ast.Name):
+            nm = st.targets[0].id
+            v = st.value
+            if isinstance(v, ast.BinOp) and isinstance(v.op, ast.Pow) and isinstance(v.right, ast.Constant) and v.right.value == 0.5:
+                e, ty = ta.tr(v.left)
+                radic[nm] = (list(lets), e)
+                ta.env[nm] = (nm, 'K')       # the root itself is a parameter of the model
+            else:
+                e, ty = ta.tr(v)
+                lets.append(f'let {nm} := {e}')
+                ta.env[nm] = (nm, ty)
+        elif isinstance(st, ast.Expr) and isinstance(st.value, ast.Call) and ast.unparse(st.value.func) == 'self.set_lengths':
+            call = st.value
+        else:
+            fail(f'set_abc statement {ast.unparse(st)[:60]}')
+    if call is None or call is not ab[-1].value or sorted(radic) != ['ly', 'lz']:
+        fail('set_abc is not straight-line arithmetic with two square roots ending in self.set_lengths(…)')
+    kws = {k.arg: ast.unparse(k.value) for k in call.keywords}
+    if call.args or kws != {k: k for k in ('lx', 'ly', 'lz', 'xy', 'xz', 'yz', 'origin')}:
+        fail(f'set_abc passes {kws} to set_lengths')
+    A('/-- what `set_abc` passes to `set_lengths`; `ca cb cg` = `np.cos(angle * np.pi / 180)`, `ly lz` = the two `(…)**0.5`. -/')
+    A('def abcLengths (a b c ca cb cg ly lz : K) : Lengths K :=\n  ' + '\n  '.join(lets)
+      + '\n  { lx := lx, ly := ly, lz := lz, xy := xy, xz := xz, yz := yz }')
+    A('/-- the value under the first square root of `set_abc`. -/')
+    A('def abcLySq (a b c ca cb cg : K) : K :=\n  ' + '\n  '.join(radic['ly'][0] + [radic['ly'][1]]))
+    A('/-- the value under the second square root of `set_abc`. -/')
+    A('def abcLzSq (a b c ca cb cg ly : K) : K :=\n  ' + '\n  '.join(radic['lz'][0] + [radic['lz'][1]]))
+    A('')
+    A('end formulas')
+    A('')
+    A('end Atomman.Generated.BoxSource')
+    return {'BoxSource': '\n'.join(out) + '\n'}
+
+
+def _strip_check(b, argname, fail):
+    """drop `x = np.asarray(arg, dtype=float)` and the trailing-dimension check of the two conversions."""
+    import ast
+    if len(b) != 3:
+        fail('conversion body is not asarray / shape check / return')
+    a0 = ast.unparse(b[0])
+    if not (a0.endswith(f'= np.asarray({argname}, dtype=float)')):
+        fail(f'conversion does not start with np.asarray({argname}, dtype=float): {a0}')
+    var = b[0].targets[0].id
+    if not (isinstance(b[1], ast.If) and ast.unparse(b[1].test) == f'{var}.shape[-1] != 3' and isinstance(b[1].body[0], ast.Raise)
+            and 'ValueError' in ast.unparse(b[1].body[0]) and not b[1].orelse):
+        fail('conversion lacks the `shape[-1] != 3 -> ValueError` check')
+    return b[2:]
+
+
+def _cmp(node, tr, fail):
+    """one comparison `e1 op e2` -> Lean Bool."""
+    import ast
+    if not (isinstance(node, ast.Compare) and len(node.ops) == 1):
+        fail(f'not a simple comparison: {ast.unparse(node)}')
+    a, ta = tr.tr(node.left)
+    b, tb = tr.tr(node.comparators[0])
+    if ta != 'K' or tb != 'K':
+        fail(f'comparison of non-scalars: {ast.unparse(node)}')
+    op = node.ops[0]
+    if isinstance(op, ast.Eq):
+        return f'decide ({a} = {b})'
+    if isinstance(op, ast.Gt):
+        return f'decide ({b} < {a})'
+    if isinstance(op, ast.Lt):
+        return f'decide ({a} < {b})'
+    if isinstance(op, ast.GtE):
+        return f'decide ({b} ≤ {a})'
+    if isinstance(op, ast.LtE):
+        return f'decide ({a} ≤ {b})'
+    fail(f'comparison operator in {ast.unparse(node)}')
+
+
 THR = Fraction(1e-9)
 
 
@@ -1760,10 +2288,12 @@ MANIFEST = {
             'up to a proper rotation (equal Gram matrix <=> R = V1^-1 V2 orthogonal, det 1), the two position conversions are '
             'mutual inverses for det != 0, reciprocal vectors are dual, inside <=> relative coordinates in the closed/open unit '
             'cube for every positive normalisation of the six plane normals, outside = complement, volume = |det| = lx ly lz '
-            '= sqrt(det Gram), setter clean-up idempotent. Angle/length read-back is proved in cosine/squared form; the '
+            '= sqrt(det Gram), setter clean-up idempotent; the Box object with its cached reciprocal vectors (filled on first '
+            'read, emptied by every call that assigns vects) keeps "cached = inverse-transpose of the current vectors" and '
+            'reports for every call sequence what the cache-free cell reports. Angle/length read-back is proved in cosine/squared form; the '
             'cos/sqrt/arccos wrappers and float rounding are partial (assumed, compared numerically).',
     'note': 'Trusted: Lean kernel + propext/Classical.choice/Quot.sound; the hand-written model is tied to atomman.Box by a '
-            'state-machine correspondence on exact rational inputs (exact on the dyadic grid, 1e3*2^-52*cond*scale elsewhere, '
+            'state-machine correspondence on exact rational inputs (incl. chains of one-ulp..1e-4 changes on warm objects; exact on the dyadic grid, 1e3*2^-52*cond*scale elsewhere, '
             'points within that bound of a face exempt); numpy cos/sqrt/arccos/inv/norm assumed accurate; numpy shape plumbing '
             'exercised by container/shape variants, not modelled.',
     'technique': 'Lean 4 theorems over a hand-written polymorphic model + differential state-machine correspondence + '
